@@ -864,3 +864,79 @@ def callconv_program(pat, rnd):
                       "body": ("callst", "lvl%d" % d, [])})
     rnd.shuffle(procs)
     return {"globals": g, "procs": procs}
+
+
+def temps_expr(rnd, k, leaves):
+    """An integer expression whose evaluation needs about k stack temporaries at once (right operands that need areg)."""
+    def leaf():
+        return rnd.choice(leaves)
+    if k <= 0:
+        return ("bin", rnd.choice(["+", "-"]), leaf(), leaf()) if rnd.random() < 0.5 else leaf()
+    left = temps_expr(rnd, k - 1, leaves)
+    right = ("bin", rnd.choice(["+", "-"]), leaf(), leaf())
+    if rnd.random() < 0.3:
+        right = ("sub", "tab", ("num", rnd.randrange(4)))
+    return ("bin", rnd.choice(["+", "-"]), left, right)
+
+
+def argclobber_program(rnd):
+    """Calls whose later actuals need several temporaries while earlier actuals (array addresses, indices) already sit
+    in their parameter slots, in procedures whose frame has already been deepened by earlier statements."""
+    nvals = rnd.randrange(0, 3)
+    order = rnd.choice(["array-first", "array-last", "array-mid"])
+    formals = [("val", "v%d" % i) for i in range(nvals + 1)]
+    pos = {"array-first": 0, "array-last": len(formals), "array-mid": len(formals) // 2}[order]
+    formals.insert(pos, ("array", "a"))
+    idxf = rnd.random() < 0.5
+    body = []
+    acc = ("var", "v0")
+    for i in range(1, nvals + 1):
+        acc = ("bin", "+", acc, ("var", "v%d" % i))
+    body.append(("ass", ("sub", "a", ("var", "v0") if idxf and False else ("num", rnd.randrange(0, 3))), acc))
+    callee_kind = rnd.choice(["proc", "func"])
+    if callee_kind == "func":
+        body.append(("ret", ("sub", "a", ("num", 0))))
+    callee = {"kind": callee_kind, "name": "poke", "formals": formals, "locals": [], "body": ("seq", body) if len(body) > 1 else body[0]}
+    one = {"kind": "func", "name": "one", "formals": [], "locals": [], "body": ("ret", ("num", 1))}
+    many = {"kind": "func", "name": "many", "formals": [("val", "p%d" % i) for i in range(rnd.randrange(1, 7))], "locals": [],
+            "body": ("ret", ("var", "p0"))}
+    locs = ["x", "y", "z", "c", "d"]
+    leaves = [("var", n) for n in locs] + [("num", rnd.randrange(1, 30))]
+    stmts = [("ass", ("var", n), ("num", 3 + i * 7)) for i, n in enumerate(locs)]
+    for i in range(4):
+        stmts.append(("ass", ("sub", "tab", ("num", i)), ("num", 100 + i)))
+        stmts.append(("ass", ("sub", "buf", ("num", i)), ("num", 0)))
+    # earlier code that deepens the frame
+    pre = rnd.choice(["call", "manyargs", "deepexpr", "none"])
+    if pre == "call":
+        stmts.append(("ass", ("var", "x"), ("call", "one", [])))
+    elif pre == "manyargs":
+        stmts.append(("ass", ("var", "x"), ("call", "many", [temps_expr(rnd, rnd.randrange(0, 2), leaves) for _ in many["formals"]])))
+    elif pre == "deepexpr":
+        stmts.append(("ass", ("var", "y"), temps_expr(rnd, rnd.randrange(1, 5), leaves)))
+    args = []
+    for k, (fk, fn) in enumerate(formals):
+        if fk == "array":
+            args.append(("var", "buf"))
+        else:
+            args.append(temps_expr(rnd, rnd.choice([0, 1, 2, 2, 3, 4]), leaves))
+    if callee_kind == "proc":
+        stmts.append(("callst", "poke", args))
+    else:
+        stmts.append(("ass", ("var", "z"), ("call", "poke", args)))
+    for i in range(3):
+        stmts.append(("sysst", 1, [("sub", "buf", ("num", i)), ("num", 0)]))
+    stmts.append(("sysst", 1, [("var", "z"), ("num", 0)]))
+    w = {"kind": "proc", "name": "w", "formals": [], "locals": [("var", n) for n in locs], "body": ("seq", stmts)}
+    main = {"kind": "proc", "name": "main", "formals": [], "locals": [], "body": ("callst", "w", [])}
+    procs = [callee, one, many, w, main]
+    rnd.shuffle(procs)
+    return {"globals": [("array", "buf", ("num", 4)), ("array", "tab", ("num", 4))], "procs": procs}
+
+
+def argclobber_matrix(rnd, tier):
+    n = 600 if tier == "quick" else 20000
+    for i in range(n):
+        sub = rnd.randrange(1 << 62)
+        import random as _r
+        yield ("argclobber:%d" % sub, argclobber_program(_r.Random(sub)))
